@@ -8,7 +8,7 @@
 #include <vector>
 
 #include "disk_interface.h"
-#include "json.h"
+#include "vjson.h"
 
 inline uint64_t Fnv64(const std::string& s) {
   uint64_t h = 1469598103934665603ull;
